@@ -154,7 +154,10 @@ impl<CS: BbsCiphersuite> Signature<BBSplus<CS>> {
         let messages = messages.unwrap_or(&[]);
         let message_scalars = BBSplusMessage::messages_to_scalar::<CS>(messages, CS::API_ID)?;
         let generators = Generators::create::<CS>(messages.len() + 1, Some(CS::API_ID));
-        let signature = self.bbsPlusSignature();
+        // a value decoded from JSON may carry the variant of another scheme
+        let Self::BBSplus(signature) = self else {
+            return Err(Error::InvalidSignature);
+        };
 
         core_verify::<CS>(
             pk,
@@ -234,6 +237,9 @@ impl<CS: BbsCiphersuite> Signature<BBSplus<CS>> {
 
         let H_points = &generators.values[1..];
         let H_i = H_points.get(update_index).ok_or(Error::Unspecified)?;
+        if !matches!(self, Self::BBSplus(_)) {
+            return Err(Error::InvalidSignature);
+        }
         let sk_e = sk.0 + self.e();
         let mut B = self.a() * sk_e;
         B = B + (-H_i * old_message_scalar.value);
